@@ -142,7 +142,16 @@ def build_methods(specs: List[Dict[str, Any]], shared: Dict[str, Any]):
             exec(compile(method_source(m, False), '<vmon_spec_programs>', 'exec', dont_inherit=True), ns)
             fn = ns[m['fname']]
             view_cls = None
+            if m.get('partial'):
+                # several methods that are functools.partial objects over ONE function: every partial is a method of its own
+                import functools
+                import json as _json
+                key = 'partial_base:' + _json.dumps([m['params'], m.get('ret'), m.get('doc'), m.get('ctx')], sort_keys=True, default=str)
+                fn = functools.partial(shared.setdefault(key, fn))
         funcs[m['name']] = fn
+        if m.get('pd_config'):
+            shared.setdefault('pydantic_config', {'json_schema_extra': {'x-origin': 'Zq7extra'}, 'title': None} if m['pd_config'] == 'extra+title'
+                              else {'json_schema_extra': {'x-origin': 'Zq7extra'}})
         if m.get('pep702'):
             # what @warnings.deprecated / @typing_extensions.deprecated leave on the function: the MESSAGE, not a flag
             getattr(fn, '__func__', fn).__deprecated__ = 'use something else instead'
@@ -223,8 +232,15 @@ def apply_annotations(fn, ann: Dict[str, Any], shared: Dict[str, Any], m: Dict[s
         openrpc.annotate(**kw)(fn)
 
 
-def make_extractors(stack: str, exclude_name: Optional[str] = None):
+def make_extractors(stack: str, exclude_name: Optional[str] = None, pd_config: Optional[Dict[str, Any]] = None):
     ex = (lambda name, ann, default: name == exclude_name) if exclude_name else None
+    if pd_config:
+        # pydantic model configuration handed through the extractor (`**config_args`): the user's objects
+        x_pd_cls = x_pd.PydanticSchemaExtractor
+        return {'pydantic': [x_pd_cls(exclude_param=ex, **pd_config)],
+                'pydantic+docstring': [x_pd_cls(exclude_param=ex, **pd_config), x_doc.DocstringSchemaExtractor(exclude_param=ex)],
+                'docstring+pydantic': [x_doc.DocstringSchemaExtractor(exclude_param=ex), x_pd_cls(exclude_param=ex, **pd_config)],
+                'default': [extractors.BaseSchemaExtractor()], 'docstring': [x_doc.DocstringSchemaExtractor(exclude_param=ex)]}[stack]
     table = {
         'default': [extractors.BaseSchemaExtractor()],
         'pydantic': [x_pd.PydanticSchemaExtractor(exclude_param=ex)],
@@ -237,7 +253,7 @@ def make_extractors(stack: str, exclude_name: Optional[str] = None):
 
 def make_spec(kind: str, stack: str, shared: Dict[str, Any], status_map: bool = False, exclude_name: Optional[str] = None):
     """kind: 'oas31' | 'oas30' | 'openrpc'"""
-    exs = make_extractors(stack, exclude_name)
+    exs = make_extractors(stack, exclude_name, shared.get('pydantic_config'))
     if kind == 'openrpc':
         info = openrpc.Info(title='t', version='1.0', description='d')
         shared['info'] = info
